@@ -442,7 +442,67 @@ def rule_R5(ck):
         ck.violation("parser::label", "a local (numeric) label written with '::' is not refused (reported and treated as not exported)", construct="local label export")
 
 
+def rule_R6x(ck):
+    """End to end on two files (real compile_label / declare_external_symbol / Symbol._resolve, abstractly executed):
+    a reference in file B to a name file A exported resolves to A's definition; B's own definition takes precedence; a name
+    A did NOT export is undefined in B; the order of the two files does not matter for the outcome."""
+    repo = ck.repo
+    I = lazy(repo)
+    where = "types::Symbol._resolve"
+    AX, AY, BX = sym.var("A.x", "int"), sym.var("A.y", "int"), sym.var("B.x", "int")
+
+    def st(comp, n):
+        return {"local_symbol_prefix": f".local{n}.", "internal_symbol_prefix": f".internal{n}.", "compiler": comp, "internal_symbols_list": [], "extern_all": None, "filename": f"f{n}.mac",
+                "insn": None, "context": "file"}
+
+    def scenario(b_defines_x, a_first):
+        def thunk():
+            sh = Shapes(I)
+            comp = I.instantiate(I.module_get("compiler", "Compiler"), [], {})
+            L = I.module_get("types", "Label")
+            sa, sb = st(comp, 1), st(comp, 2)
+
+            def file_a():
+                I.call_method(comp, "compile_label", [sh.mk(L, None, None, "x", True), AX, sa])      # x::   exported
+                I.call_method(comp, "compile_label", [sh.mk(L, None, None, "y", False), AY, sa])     # y:    private
+
+            def file_b():
+                if b_defines_x:
+                    I.call_method(comp, "compile_label", [sh.mk(L, None, None, "x", False), BX, sb])
+            (file_a, file_b)[0 if a_first else 1]()
+            (file_a, file_b)[1 if a_first else 0]()
+            out = {}
+            for nm in ("x", "X", "y"):
+                n0 = len([e for e in I.effects if e[0] == "report"])
+                try:
+                    v = I.call_method(sh.symbol(nm), "resolve", [sb])
+                except Raised as ex:
+                    v = "raised " + ex.exc.name
+                out[nm] = (v, [e[2] for e in I.effects if e[0] == "report"][n0:])
+            return out
+        return I.explore(thunk)
+    for b_defines_x in (False, True):
+        for a_first in (True, False):
+            ps = scenario(b_defines_x, a_first)
+            tag = f"B {'defines its own x' if b_defines_x else 'has no x'}, {'A first' if a_first else 'B first'}"
+            ck.instance(("cross-file", b_defines_x, a_first), {"scenario": tag, "x, X, y as seen from B": repr(ps[0].value)[:200] if ps else None}, fn=where)
+            if len(ps) != 1 or ps[0].kind != "return":
+                ck.violation(where, f"two files ({tag}): resolution does not complete on one path: {ps}", construct="cross-file resolution")
+                continue
+            out = ps[0].value
+            want_x = BX if b_defines_x else AX
+            for nm in ("x", "X"):
+                v, errs = out[nm]
+                if v != want_x or errs:
+                    ck.violation(where, f"two files ({tag}): file A has 'x::' (exported) and 'y:' (private); in file B the reference '{nm}' evaluates to {v!r} with diagnostics {errs}, expected {want_x!r} "
+                                        f"({'the file\'s own definition takes precedence' if b_defines_x else 'the exported definition of the other file'})", construct="cross-file resolution of an exported name")
+            v, errs = out["y"]
+            if "undefined-symbol" not in errs:
+                ck.violation(where, f"two files ({tag}): 'y:' is private to file A, yet a reference to y in file B evaluates to {v!r} with diagnostics {errs}; expected 'undefined-symbol'", construct="private name visible in another file")
+
+
 def run(ck):
+    ck.run_rule("C11.R6x", "two files end to end: exported names cross files in either order, own definitions win, private names stay private", 4, rule_R6x)
     ck.run_rule("C11.R1", "writer/reader agreement of symbol-table keys; candidate order", 5, rule_R1)
     ck.run_rule("C11.R1k", "prefix grammar is injective (counter followed by a non-digit separator)", 3, rule_R1k)
     ck.run_rule("C11.R3", "fresh scope prefix per block and after each ordinary label; fresh file prefix per compilation", 2, rule_R3)
